@@ -311,7 +311,7 @@ def r4_verbatim(ctx, it):
     okb = any(isinstance(n, ast.Assign) and src(n.targets[0]) == 'self.encoding' and F.is_name(n.value, ab.params[1])
               for n in walk_local(ab.node))
     ctx.check(okb, 'R4', ab.loc, ab.qualname, 'token-stores-encoding', 'AbstractToken.__init__ stores encoding verbatim')
-    rets = symex.returns(exp)
+    rets = [(None, v, sp_) for sp_, v in F.effective_returns(ctx, ctx.prog.cls(f'{N.TOKENS}.ErrorToken'), 'export')]
     okx = len(rets) >= 1 and all(src(v) == 'self.encoding' for _, v, _ in rets)
     ctx.check(okx, 'R4', exp.loc, exp.qualname, 'error-token-export-verbatim', 'ErrorToken.export returns the stored cell text',
               f'ErrorToken.export returns {[src(v)[:40] for _, v, _ in rets]}')
